@@ -166,6 +166,8 @@ type world struct {
 	lastObservedVer  int
 	checked   int // commits already examined by the commit oracle
 	forgotten map[string]time.Duration
+	// hold: parked tasks the current scenario phase keeps in flight (drive does not release them)
+	hold func(name string) bool
 }
 
 func cloneDesc(v interface{}) interface{} {
